@@ -31,6 +31,10 @@ Requests (one per line, answers one line each):
   sblock <id> <pre014 0|1> item...  State.Update + Commitment; items in application order:
         D:<class>:<casm> M:<class>:<casm> P:<addr>:<class> R:<addr>:<class> N:<addr>:<nonce>
         S:<addr>:<key>=<val>,<key>=<val>...                                    -> <term> | rejected
+  sold <id> <fixed 0|1> <prePrev> <preNew>   old-root check of the next Update: OldRoot = the root stored for the
+                                    previous block (version flag prePrev), verified for a block with flag preNew;
+                                    fixed = variant with the proposed repair  -> ok | mismatch
+  comm <ped|pos> <hex item>...      root of the temporary commitment trie (item i under key i, height 64) -> <term>
   sdiscard <id> <pre014> item...    the same update executed and DROPPED (state unchanged)  -> <term> | rejected
 Terms are printed in prefix form: f<hex> | P(a,b) | S(a,b) | T(a,b,c) | A(t,<hex>).
 -/
@@ -279,6 +283,21 @@ def step (s : St) (line : String) : St × String :=
           | none => (s, "rejected")
         | none => (s, "bad-op")
       | none => (s, "bad-op")
+    | _, _ => (s, "bad-op")
+  | ["sold", id, fixed, prePrev, preNew] =>
+    -- the old-root check of Update: OldRoot = root stored for the previous block (computed under prePrev)
+    match id.toNat?, fixed.toNat?, prePrev.toNat?, preNew.toNat? with
+    | some id, some fx, some pp, some pn =>
+      match s.states.find? (·.1 == id) with
+      | some (_, (_, st)) =>
+        (s, if State.oldRootOK (fx != 0) (pn != 0) (State.commitment (pp != 0) st) st then "ok" else "mismatch")
+      | none => (s, "bad-op")
+    | _, _, _, _ => (s, "bad-op")
+  | "comm" :: k :: items =>
+    -- calculateCommitment: item i under key i of a height-64 trie (`commitmentOps`)
+    match kindOf? k, items.mapM hexToNat? with
+    | some k, some vs =>
+      (s, termStr (Trie2.hashRoot k (Trie2.run k (commitmentOps (vs.map HTerm.felt)))).1)
     | _, _ => (s, "bad-op")
   | "sdiscard" :: id :: pre :: items =>
     -- an update that is executed and dropped: answer the root it computes, keep the state
